@@ -11,6 +11,8 @@
 // explained by zcrypto's own PRF / HKDF-Expand-Label being wrong is reported
 // under the signature of that root cause, so that one defect gives few
 // signatures.
+
+//go:debug tlsunsafeekm=1
 package main
 
 import (
@@ -813,6 +815,10 @@ func main() {
 				runEMSProbe(c, &collector{viol: map[string]*vrec{}}, true)
 				return
 			}
+			if w.Spec.Fn == "std-handshake" {
+				runStdProbe(c, &collector{viol: map[string]*vrec{}}, true)
+				return
+			}
 			r := eval(w.Spec, nil)
 			c.States.Add(1)
 			c.Transitions.Add(int64(r.impl))
@@ -1279,15 +1285,22 @@ func main() {
 		} else {
 			c.Set("output_lengths", fmt.Sprintf("every length 0..%d", maxOut))
 		}
-		c.Rule("a case = one (function, version/suite, secret, label, seed/context/randoms/transcript chunking, output length) tuple, all distinct by construction; " +
+		c.Rule("a case = one (function, version/suite, secret, label, seed/context/randoms/transcript chunking, output length) tuple, all distinct by construction, plus one state per connection of the two handshake probes (ems-handshake, std-handshake); " +
 			"non-trivial = the RFC defines a non-empty output for it (length>0 / in-domain), counted on the oracle path")
 		c.Assume("oracle = hand transcription of RFC 2246 §5, 5246 §5/§6.3/§7.4.9/§8.1, 5705 §4, 7627 §4, 8446 §4.4.4/§7 over crypto/hmac + hash packages, anchored by known answers at start-up",
 			"TLS 1.2 PRF hash and TLS 1.3 (hash, key_length) per suite id are taken from the RFCs' suite definitions, not from zcrypto's tables",
 			"input byte content is one (quick) / two (thorough) fixed non-repeating patterns per length; lengths, labels and chunkings are enumerated exhaustively over the stated sets",
 			"outside the RFCs' domain (HKDF L > 255*HashLen, label > 249, context > 255 / > 65535) nothing is demanded",
 			"PRF / RFC 5705 exporter, output lengths > 130 inside an every-length sweep: expected value = prefix of one oracle evaluation at the sweep's largest length (P_hash is a truncated stream by definition); lengths <= 130 and everything TLS 1.3 are direct oracle evaluations",
-			"extended master secret: observed through handshakes against the Go standard library server (RSA key exchange, 5 version/suite combinations x offer/no offer x 2 ways of offering); crypto/tls's own master secret anchors the RFC 7627 oracle")
+			"extended master secret: observed through handshakes against the Go standard library server (RSA key exchange, 5 version/suite combinations x offer/no offer x 2 ways of offering); crypto/tls's own master secret anchors the RFC 7627 oracle",
+			"wiring of the schedule inside real handshakes (std-handshake:* outcomes): 30 cases = {zcrypto client + crypto/tls server, crypto/tls client + zcrypto server} x {TLS 1.3: each of the 3 suites on X25519, P-256, HelloRetryRequest X25519->P-256 with a SHA-256 and a SHA-384 suite, PSK resumption (2 connections) with a SHA-256 and a SHA-384 suite; TLS 1.2 ECDHE_RSA with P_SHA256 and P_SHA384 on X25519 and P-256; TLS 1.1 and 1.0 ECDHE_RSA}. Every NSS key-log line zcrypto wrote (CLIENT/SERVER_HANDSHAKE_TRAFFIC_SECRET, CLIENT/SERVER_TRAFFIC_SECRET_0, CLIENT_RANDOM; neither library writes EXPORTER_SECRET) and ExportKeyingMaterial for context nil / empty / 1 byte / 255 bytes x length 1, 32, 255 must equal both crypto/tls's value and the oracle's; the oracle is driven by the wire only: the ephemeral private key is found in the recorded output of the deterministic Config.Rand of either side, the encrypted flights are opened with a record layer written in this check under the oracle's own keys (transcripts, Finished verify_data sent by zcrypto, NewSessionTicket nonce, PSK binder of a resuming ClientHello are read from there)",
+			"the handshake probes run over the in-memory duplex of internal/tlsx: no wall-clock waits; a handshake that does not complete yields Incomplete + comparison of the lines written so far, never a violation by itself (exception: a zcrypto server that rejects, as invalid, the PSK binder the oracle confirms)",
+			"crypto/tls refuses the RFC 5705 exporter without extended master secret unless GODEBUG tlsunsafeekm=1: set through a //go:debug directive of this check")
 
+		if os.Getenv("C26_ONLY_PROBES") != "" { // development aid only: never an exhaustive run
+			items = nil
+			c.Incomplete("development run (C26_ONLY_PROBES): the function-level grid was skipped")
+		}
 		col := &collector{viol: map[string]*vrec{}}
 		for i, m := range col0 {
 			col.add("suite table: (keyLen, macLen, ivLen) of a cipher suite differ from the suite's RFC definition", int64(i)-1000, m)
@@ -1356,6 +1369,10 @@ func main() {
 		// ---- extended master secret (RFC 7627): zcrypto has no function for it, so it
 		// is observed where it must take effect: a handshake that negotiates it.
 		runEMSProbe(c, col, false)
+
+		// ---- the schedule as wired into real handshakes, against crypto/tls as the
+		// peer and against the oracle driven by the wire bytes (std13.go)
+		runStdProbe(c, col, false)
 
 		// ---- report
 		sigs := make([]string, 0, len(col.viol))
